@@ -144,14 +144,14 @@ PROPS = {
         "rule": ("one evaluation = one generated workspace whose outputs - deterministic image bytes, lint and breaking annotations rendered as text "
                  "and json, formatted files, ls-files list, dependency graph DOT, module digests - are computed once as a baseline and then 3-6 more "
                  "times under tape-chosen perturbations (file arrival order, thread.Parallelize job start/end order, walk permutation at every bucket, "
-                 "module listing order, parallelism incl. ambient settings below the number of tasks); every output must be byte-identical to the "
+                 "module listing order, --path / rule id / category listing order, parallelism incl. ambient settings below the number of tasks); every output must be byte-identical to the "
                  "baseline; non-trivial = the scheduler had a real choice; distinct = distinct released-operation sequence"),
         "real": ["bufimage.BuildImage", "protoencoding wire marshaler", "bufcheck client + builtin lint/breaking rules (in-process check server)", "bufanalysis printers",
                  "bufformat.FormatModuleSet", "bufimage ls-files helpers", "bufmodule.ModuleSetToDAG / dag DOT", "bufmodule digests", "thread.Parallelize"],
         "stubbed": ["disk: storagemem buckets behind the yielding wrapper with walk permutation"],
         "assumptions": COMMON_ASSUMPTIONS + [
             "outputs are assembled at API level the way bufctl.Controller does, because that is where a bucket can be substituted; the CLI's flag parsing is not exercised",
-            "rule and path listing-order permutations are not yet applied (module listing order is)",
+            "listing orders permuted: modules, --path / --exclude-path values, lint use / except ids and categories, breaking categories; plugin listing order belongs to C17",
         ],
         "probes_expected": {"quick": ["arrival-order-distinct", "walk-permuted-nontrivially"], "thorough": ["arrival-order-distinct", "walk-permuted-nontrivially"]},
     },
